@@ -233,6 +233,11 @@ class FiniteDifference(ApproximationScheme):
         if not self._wrt_meta:
             return
 
+        # A relative step size depends on the current value of the wrt variable, so the cached
+        # deltas and coefficients have to be recomputed at every new point.
+        if any(meta['step_calc'] != 'abs' for meta in self._wrt_meta.values()):
+            self._reset()
+
         self._starting_outs = system._outputs.asarray(copy=True)
         self._starting_resids = system._residuals.asarray(copy=True)
         self._starting_ins = system._inputs.asarray(copy=True)
